@@ -2001,12 +2001,15 @@ def replace_nested_loops_with_set_list_comp(source: str) -> str:
 
             # The container that is extended is looked up in every iteration of the loop, but only
             # once, before the first iteration, in the rewritten call: it may neither depend on the
-            # loop variables, nor do anything but a lookup, nor be used by the loop itself (extend()
-            # would consume a generator that reads the list it is appending to).
+            # loop variables, nor do anything but a lookup of a name or an attribute (d[key] fails or,
+            # for a defaultdict, inserts key even when the loop does not run at all), nor be used
+            # by the loop itself (extend() would consume a generator that reads the list it is
+            # appending to).
             receiver = m.outer_container_add_to.value
             if (
                 _names_in(receiver) & bound_names
                 or core.has_side_effect(receiver)
+                or any(True for _ in core.walk(receiver, ast.Subscript))
                 or _mentions_code_of(receiver, m.expression, *generators)
             ):
                 continue
